@@ -363,6 +363,8 @@ package middleware
 //@ ensures [C09:memo] typeis(ret(CV,0,0), "*github.com/go-openapi/runtime/middleware.validation") ==> calls(VR) == 0 && result1 == request
 //@ ensures [C09:compute] !typeis(ret(CV,0,0), "*github.com/go-openapi/runtime/middleware.validation") ==> calls(VR) == 1 && arg(VR,0,0) == c && arg(VR,0,1) == request && arg(VR,0,2) == matched
 //@ ensures [C06:outcome] calls(VR) == 1 ==> (result2 != nil <==> len(ret(VR,0,0).result) > 0)
+// a remembered outcome is reported again as it was: an error exactly when the remembered validation had failures
+//@ ensures [C09:memoresult] typeis(ret(CV,0,0), "*github.com/go-openapi/runtime/middleware.validation") && nonnilptr(ret(CV,0,0)) ==> (result2 != nil <==> len(unboxptr(ret(CV,0,0), "*validation").result) > 0)
 //@ ensures [C06:error] result2 != nil ==> calls(CE) == 1 && result2 == boxof(ret(CE,0,0))
 //@ ensures [C09:samereq] result1 != nil && result1.URL == old(request.URL) && result1.Method == old(request.Method)
 
